@@ -38,6 +38,7 @@ type Program struct {
 	RPHttp map[*ssa.Function]bool // from decideHandler/functionsHandler (+ RPLib)
 	Inits  map[*ssa.Function]bool // package initialisers and what only they reach
 	Overlay map[string][]byte
+	SpecByName bool   // fixtures: reference implementations are recognised by their Spec_ name, not by the overlay file
 	Drifted []string // reference functions dropped because they no longer type-check
 	specIndex map[string]*ssa.Function
 	codeIndex map[string]*ssa.Function
@@ -363,6 +364,14 @@ func (p *Program) paired(f *ssa.Function) bool {
 
 // isSpec: the function (or its enclosing function) is defined in a spec overlay file.
 func (p *Program) isSpec(f *ssa.Function) bool {
+	if p.SpecByName {
+		for g := f; g != nil; g = g.Parent() {
+			if strings.HasPrefix(g.Name(), specPrefix) {
+				return true
+			}
+		}
+		return false
+	}
 	for g := f; g != nil; g = g.Parent() {
 		pos := g.Pos()
 		if !pos.IsValid() && g.Syntax() != nil {
